@@ -718,6 +718,60 @@ def run_long_rows(case):
 
 
 # --------------------------------------------------------------------------
+# flat data + a lengths table held in a narrow integer type: every length fits the type, their running total does not
+
+@st.composite
+def narrow_lengths_case(draw):
+    width = draw(st.sampled_from(["int8", "int8", "int16", "uint8x"]))
+    n = draw(st.integers(3, 8))
+    if width == "int16":
+        lens = [draw(st.integers(6000, 32767)) for _ in range(n)]
+        width_dt = "int16"
+    else:
+        lens = [draw(st.integers(1, 127)) for _ in range(n)]
+        width_dt = "int8"
+    if draw(st.integers(0, 3)) == 0:
+        lens = [lens[0]] * n                       # equally long rows
+    return {"lengths": lens, "ldtype": width_dt, "dtype": draw(st.sampled_from(["int64", "int32", "float64", "int8"]))}
+
+
+def run_narrow_lengths(case):
+    lens = case["lengths"]
+    total = sum(lens)
+    flat = (np.arange(total) % 101).astype(case["dtype"])
+    starts = [int(x) for x in np.concatenate([[0], np.cumsum(lens)[:-1]])]
+    rows = [flat[s:s + L] for s, L in zip(starts, lens)]
+    L_arr = np.array(lens, dtype=case["ldtype"])
+    import warnings as _w
+    with _w.catch_warnings():
+        _w.simplefilter("ignore")
+        a = ra.RaggedArray(flat.copy(), lengths=L_arr)
+        require(np.array_equal(L_arr, np.array(lens, dtype=case["ldtype"])), "constructor changed the caller's lengths table")
+        require(len(a) == len(lens) and [int(x) for x in a.lengths] == lens and [int(x) for x in a.starts] == starts,
+                "len / lengths / starts disagree with the lengths given (narrow lengths table)", lengths=lens,
+                got_lengths=[int(x) for x in a.lengths], got_starts=[int(x) for x in a.starts], ldtype=case["ldtype"])
+        for i, r in enumerate(rows):
+            got = np.asarray(a[i])
+            require(got.shape == r.shape and np.array_equal(got, r), "a[i] is not row i of the flat data (narrow lengths "
+                    "table)", i=i, got_len=len(got), want_len=len(r), got_first=got[:1].tolist(), want_first=r[:1].tolist(),
+                    lengths=lens, ldtype=case["ldtype"])
+            for j in (0, -1):
+                e = np.asarray(a[i, j]).ravel()
+                require(e.size == 1 and e[0] == r[j], "a[i, j] disagrees with row i (narrow lengths table)", i=i, j=j,
+                        lengths=lens, ldtype=case["ldtype"])
+        it = [np.asarray(r) for r in a]
+        require(len(it) == len(rows) and all(x.shape == y.shape and np.array_equal(x, y) for x, y in zip(it, rows)),
+                "iteration disagrees with the rows (narrow lengths table)", got=[len(x) for x in it], want=lens)
+        sub = a[:, 0:2]
+        require(np.array_equal(np.asarray(sub.flatten()), np.concatenate([r[0:2] for r in rows])),
+                "a[:, 0:2] disagrees with the rows (narrow lengths table)", lengths=lens)
+        require(np.array_equal(np.asarray(a.flatten()), flat), "flatten disagrees (narrow lengths table)")
+    top = 127 if case["ldtype"] == "int8" else 32767
+    return Info(total > top and len(set(lens)) > 1, ["narrow_ldtype=" + case["ldtype"], "narrow_total_exceeds_type=%s" % (total > top),
+                                                     "narrow_equal=%s" % (len(set(lens)) == 1)])
+
+
+# --------------------------------------------------------------------------
 # rows of DIFFERENT element types (an integer row next to a fractional one, a bool row next to counts): a list of rows
 # concatenates them with numpy's promotion, whichever row comes first
 
@@ -944,6 +998,8 @@ CLAUSES = [
            doc="rows of different element types (either order): values, dtype and flatten as np.concatenate gives them"),
     Clause("long_rows", long_rows_case(), run_long_rows, quick=12, thorough=120,
            doc="2-4 rows of 10^5..2*10^6 elements whose lengths differ by 0..3: shape, starts, element reads, outside-row raises"),
+    Clause("narrow_lengths_table", narrow_lengths_case(), run_narrow_lengths, quick=200, thorough=2000,
+           doc="flat data + lengths in int8 / int16 whose running total exceeds the type: rows, elements, iteration, slices"),
     Clause("paired_long_rows", case_paired(eshapes=("scalar",), max_rows=4, max_len=150), run_read, quick=300, thorough=3000,
            doc="paired / (row, cols) / (rows, col) reads on rows long enough that flat offsets exceed 127 / 255"),
     Clause("paired", case_paired(**SC), run_read, quick=900, thorough=5400,
